@@ -89,6 +89,8 @@ func body(r row, n int) []byte {
 		switch r.Shape {
 		case "empty":
 			return []byte{}
+		case "same":
+			return []byte("verif:same\x00verif:again")
 		case "one":
 			return []byte(fmt.Sprintf("verif:one%d", n))
 		case "many":
@@ -259,6 +261,15 @@ func (x *conn) do(r row) tracefmt.Rec {
 		pl.mu.Unlock()
 		return (!wantEvent || ev) && (!wantFwd || len(x.arrived(fromClient, ch)) > fwd0)
 	})
+	if r.Kind == "register" && fromClient {
+		// the register event is fired right after the forwarding write: give it time
+		// (generously; load must not turn into a missing event)
+		rig.WaitFor(1500*time.Millisecond, func() bool {
+			pl.mu.Lock()
+			defer pl.mu.Unlock()
+			return pl.reg > reg0
+		})
+	}
 	time.Sleep(40 * time.Millisecond)
 	pl.mu.Lock()
 	regN := pl.reg - reg0
@@ -411,6 +422,9 @@ func TestRows(t *testing.T) {
 				for i, rw := range rows {
 					if (rw.Phase == "clientConfig" || rw.Phase == "backendConfig") && mine(i) {
 						recs = append(recs, x.do(rw))
+						if rw.Shape == "same" {
+							recs = append(recs, x.do(rw))
+						}
 					}
 				}
 				_ = bc.SendFinishConfig()
@@ -464,6 +478,9 @@ func TestRows(t *testing.T) {
 						recs = append(recs, x.overlap(rw)...)
 					} else {
 						recs = append(recs, x.do(rw))
+						if rw.Shape == "same" {
+							recs = append(recs, x.do(rw)) // the very same payload once more
+						}
 					}
 				}
 			}
